@@ -59,8 +59,15 @@ exec_c20(const vcase *vc)
 			continue;
 		}
 		api::Machine M;
+		M.final_probe = true;
 		api::run(&M, vc, 2);
-		bool injected = at_failed_serial() != 0;
+		bool injected = at_failed_serial() != 0 || M.fault_serial != 0;
+		if (M.final_http != -1000) {
+			vr_tag("http_server_probed_after_fault");
+			if (M.final_http != 0)
+				vr_fail("C20:later-call-misbehaves", "allocation %ld of %ld failed; afterwards the machine's HTTP server no longer serves a fresh client: transaction -> %d (%s)", k, total,
+				    M.final_http, nng_strerror((nng_err) M.final_http));
+		}
 		if (injected)
 			vr_count(0, 1);
 		if (M.own_fail)
